@@ -67,28 +67,58 @@ type payloader interface {
 // snapshot, and the result is compared with a twin instance that is always fed pristine,
 // never-overwritten copies (so state that aliases an overwritten buffer shows up later).
 func observePay(o *Toks, p, twin payloader, mtu uint16, input []byte) {
+	r := observePayDeferred(p, twin, mtu, input)
+	r.write(o)
+}
+
+// payRecord is the observation of one Payload call; the live fragments are kept so that a history
+// can re-check them after LATER calls on the same instance (write is called at the end).
+type payRecord struct {
+	panicked                                  bool
+	frags, snap                               [][]byte
+	inputSame, overlap, fragsStable, twinSame bool
+}
+
+// stillStable re-compares the live fragments with their snapshot (after later calls: a payloader
+// that builds its result in a buffer it reuses changes fragments it handed out earlier).
+func (r *payRecord) stillStable() {
+	if !r.panicked && !fragsEqual(r.frags, r.snap) {
+		r.fragsStable = false
+	}
+}
+
+func (r *payRecord) write(o *Toks) {
+	if r.panicked {
+		o.Panic()
+		return
+	}
+	o.Ok().BytesList(r.snap).Bool(r.inputSame).Bool(r.overlap).Bool(r.fragsStable).Bool(r.twinSame)
+}
+
+func observePayDeferred(p, twin payloader, mtu uint16, input []byte) *payRecord {
+	r := &payRecord{}
 	buf := cloneBytes(input)
 	var frags [][]byte
 	if try(func() { frags = p.Payload(mtu, buf) }) {
-		o.Panic()
+		r.panicked = true
 		try(func() { twin.Payload(mtu, cloneBytes(input)) })
-		return
+		return r
 	}
-	inputSame := bytes.Equal(buf, input)
-	overlap := false
+	r.inputSame = bytes.Equal(buf, input)
 	for _, f := range frags {
 		if overlaps(f, buf) {
-			overlap = true
+			r.overlap = true
 		}
 	}
-	snap := cloneFrags(frags)
+	r.frags = frags
+	r.snap = cloneFrags(frags)
 	for i := range buf {
 		buf[i] ^= 0xA5
 	}
-	fragsStable := fragsEqual(frags, snap)
+	r.fragsStable = fragsEqual(frags, r.snap)
 	var tw [][]byte
-	twinSame := !try(func() { tw = twin.Payload(mtu, cloneBytes(input)) }) && fragsEqual(snap, tw)
-	o.Ok().BytesList(snap).Bool(inputSame).Bool(overlap).Bool(fragsStable).Bool(twinSame)
+	r.twinSame = !try(func() { tw = twin.Payload(mtu, cloneBytes(input)) }) && fragsEqual(r.snap, tw)
+	return r
 }
 
 // PayCall is one Payload(mtu, input) call of a history.
@@ -107,12 +137,19 @@ func writeCalls(t *Toks, calls []PayCall) {
 
 // observePayHist runs a history of calls on ONE instance (and its pristine twin) and writes
 // `<n> PayObs*` (mirrors Proto.rdPayObsList).  After every call the caller's buffer is
-// overwritten, so state that aliases it corrupts later outputs and shows as twinSame=0.
+// overwritten, so state that aliases it corrupts later outputs and shows as twinSame=0; the
+// fragments of every call are compared with their snapshot once more after the LAST call.
 func observePayHist(o *Toks, mk func() payloader, calls []PayCall) {
 	p, twin := mk(), mk()
 	o.Nat(len(calls))
+	recs := make([]*payRecord, 0, len(calls))
 	for _, c := range calls {
-		observePay(o, p, twin, c.MTU, c.Input)
+		recs = append(recs, observePayDeferred(p, twin, c.MTU, c.Input))
+	}
+	// fragments handed out by an earlier call must not change under later calls either
+	for _, r := range recs {
+		r.stillStable()
+		r.write(o)
 	}
 }
 
